@@ -1,6 +1,6 @@
 \* QUICK: repaired design (all switches TRUE): every safety property and convergence under per-action weak
 \* fairness with a budgeted environment; no CONSTRAINT (bounds are action guards).
-\* Measured: 143 655 distinct states, depth 61, ~30 s on 4 busy cores.
+\* Measured: 291 164 distinct states, depth 67, ~30 s on 4 busy cores.
 CONSTANTS
   InitLen = 3
   MaxLen = 3
